@@ -137,37 +137,46 @@ def factory (l : Loc) : Target → Except Err Flags
   | .standalone => .ok (planShared l false)
   | .useShared => .ok (planShared l true)
 
+/-- `destroy_workingtree` / `create_workingtree` (the new tree is the clean tree of the tip) -/
+def stTree (f : Flags) (l : Loc) : Loc :=
+  if f.destroyTree then { l with tree := false, dirty := false }
+  else if f.createTree then { l with tree := true, dirty := false, treeCode := cleanCode l.tip }
+  else l
+
+/-- `create_repository` (+ fetch of the branch's history) -/
+def stRepo (f : Flags) (l : Loc) : Loc := if f.createRepository then { l with repo := .own } else l
+
+/-- `destroy_branch` + `set_branch_reference`, or `destroy_branch` (reference) + `create_branch` -/
+def stBranch (f : Flags) (l : Loc) : Loc :=
+  if f.createReference then { l with branch := .reference, bindKnown := true }
+  else if f.createBranch then { l with branch := .unbound, bindKnown := false }
+  else l
+
+/-- `unbind` (unbinding the branch object that `destroy_branch` has just removed changes nothing) -/
+def stUnbind (f : Flags) (l : Loc) : Loc :=
+  if f.unbind && !f.destroyBranch then { l with branch := .unbound, bindKnown := true } else l
+
+def stBind (f : Flags) (l : Loc) : Loc := if f.bind then { l with branch := .bound, bindKnown := true } else l
+
+/-- `destroy_repository`: afterwards `find_repository` reaches the shared repository above, if any -/
+def stDropRepo (f : Flags) (above : Bool) (l : Loc) : Loc :=
+  if f.destroyRepository then { l with repo := if above then .shared else .none } else l
+
 /-- `apply`: the state reached, and the error that stopped it (if any) -/
 def applyFlags (l : Loc) (f : Flags) (force : Bool) : Loc × Option Err :=
   -- _check
   if !force && f.destroyTree && l.dirty then (l, some .uncommittedChanges)
   else if !force && f.createReference && l.branch != .reference && !l.bindKnown then (l, some .noBindLocation)
   else if !force && f.createReference && l.branch != .reference && !l.synced then (l, some .unsyncedBranches)
+  -- reference_branch = Branch.open(_select_bind_location())
+  else if f.createReference && !l.bindKnown then (stRepo f l, some .noBindLocation)
+  -- destroy_repository, part 1: where do the revisions go
+  else if f.destroyRepository && !f.createReference && l.branch != .reference && !l.sharedAbove then
+    (stRepo f l, some .noSharedRepository)
+  else if f.bind && !l.bindKnown then
+    (stUnbind f (stTree f (stBranch f (stRepo f l))), some .noBindLocation)
   else
-    -- create_repository
-    let l1 := if f.createRepository then { l with repo := .own } else l
-    -- reference_branch = Branch.open(_select_bind_location())
-    if f.createReference && !l.bindKnown then (l1, some .noBindLocation)
-    -- destroy_repository, part 1: where do the revisions go
-    else if f.destroyRepository && !f.createReference && l.branch != .reference && !l.sharedAbove then
-      (l1, some .noSharedRepository)
-    else
-      let l2 : Loc :=
-        if f.createReference then { l1 with branch := .reference, bindKnown := true }
-        else if f.createBranch then { l1 with branch := .unbound, bindKnown := false }
-        else l1
-      let l3 : Loc :=
-        if f.destroyTree then { l2 with tree := false, dirty := false }
-        else if f.createTree then { l2 with tree := true, dirty := false, treeCode := cleanCode l2.tip }
-        else l2
-      -- (unbinding the branch object that `destroy_branch` has just removed changes nothing)
-      let l4 : Loc := if f.unbind && !f.destroyBranch then { l3 with branch := .unbound, bindKnown := true } else l3
-      if f.bind && !(l.bindKnown) then (l4, some .noBindLocation)
-      else
-        let l5 : Loc := if f.bind then { l4 with branch := .bound, bindKnown := true } else l4
-        let l6 : Loc :=
-          if f.destroyRepository then { l5 with repo := if l.sharedAbove then .shared else .none } else l5
-        (l6, none)
+    (stDropRepo f l.sharedAbove (stBind f (stUnbind f (stTree f (stBranch f (stRepo f l))))), none)
 
 /-- factory + apply -/
 def reconfigure (t : Target) (force : Bool) (l : Loc) : Loc × Option Err :=
